@@ -143,6 +143,19 @@ func Time(name string) time.Time {
 	return time.Unix(sec.Int64(), ns.Int64()).UTC()
 }
 
+// TimeOrZero is Time, or the zero time.Time.
+func TimeOrZero(name string) time.Time {
+	in := next(name, "time")
+	v, _ := new(big.Int).SetString(in.Int, 10)
+	if v == nil || v.Cmp(new(big.Int).Mul(big.NewInt(-62135596800), big.NewInt(1000000000))) == 0 {
+		return time.Time{}
+	}
+	sec := new(big.Int)
+	ns := new(big.Int)
+	sec.DivMod(v, big.NewInt(1000000000), ns)
+	return time.Unix(sec.Int64(), ns.Int64()).UTC()
+}
+
 func Bound(name string, def int) int {
 	if cex != nil {
 		if v, ok := cex.Bounds[name]; ok {
